@@ -172,8 +172,15 @@ func (s *MultilineReverseSuffixSearcher) Find(haystack []byte) *Match {
 		// Fast path: simple prefix verification (just byte comparison)
 		if len(s.prefixBytes) > 0 {
 			if s.verifyPrefix(haystack, lineStart) {
-				// Match found! No DFA needed.
-				return NewMatch(lineStart, suffixPos+s.suffixLen, haystack)
+				// The prefix and a suffix occurrence are necessary, not sufficient,
+				// and the greedy match may extend to a later suffix on the line:
+				// let the anchored forward DFA decide the match and its end.
+				fwdCache := s.fwdCachePool.Get().(*lazy.DFACache)
+				end := s.forwardDFA.SearchAtAnchored(fwdCache, haystack, lineStart)
+				s.fwdCachePool.Put(fwdCache)
+				if end >= 0 {
+					return NewMatch(lineStart, end, haystack)
+				}
 			}
 			// Prefix doesn't match at this line start.
 			// Optimization: skip to next line - all other candidates on this line
@@ -231,7 +238,15 @@ func (s *MultilineReverseSuffixSearcher) FindAt(haystack []byte, at int) *Match 
 		// Fast path: simple prefix verification
 		if len(s.prefixBytes) > 0 {
 			if s.verifyPrefix(haystack, lineStart) {
-				return NewMatch(lineStart, suffixPos+s.suffixLen, haystack)
+				// The prefix and a suffix occurrence are necessary, not sufficient,
+				// and the greedy match may extend to a later suffix on the line:
+				// let the anchored forward DFA decide the match and its end.
+				fwdCache := s.fwdCachePool.Get().(*lazy.DFACache)
+				end := s.forwardDFA.SearchAtAnchored(fwdCache, haystack, lineStart)
+				s.fwdCachePool.Put(fwdCache)
+				if end >= 0 {
+					return NewMatch(lineStart, end, haystack)
+				}
 			}
 			// Prefix doesn't match - skip to next line
 			nextLine := bytes.IndexByte(haystack[suffixPos:], '\n')
@@ -297,7 +312,11 @@ func (s *MultilineReverseSuffixSearcher) findIndicesAtImpl(haystack []byte, at i
 		// Fast path: simple prefix verification
 		if len(s.prefixBytes) > 0 {
 			if s.verifyPrefix(haystack, lineStart) {
-				return lineStart, suffixPos + s.suffixLen, true
+				// Necessary, not sufficient; the forward DFA gives the greedy end.
+				endPos := s.forwardDFA.SearchAtAnchored(fwdCache, haystack, lineStart)
+				if endPos >= 0 {
+					return lineStart, endPos, true
+				}
 			}
 			// Prefix doesn't match - skip to next line
 			nextLine := bytes.IndexByte(haystack[suffixPos:], '\n')
@@ -352,7 +371,12 @@ func (s *MultilineReverseSuffixSearcher) IsMatch(haystack []byte) bool {
 		// Fast path: simple prefix verification
 		if len(s.prefixBytes) > 0 {
 			if s.verifyPrefix(haystack, lineStart) {
-				return true
+				fwdCache := s.fwdCachePool.Get().(*lazy.DFACache)
+				matched := s.forwardDFA.SearchAtAnchored(fwdCache, haystack, lineStart) >= 0
+				s.fwdCachePool.Put(fwdCache)
+				if matched {
+					return true
+				}
 			}
 			// Prefix doesn't match - skip to next line
 			nextLine := bytes.IndexByte(haystack[suffixPos:], '\n')
